@@ -93,6 +93,8 @@ func init() {
 					flights[seed.GetID()] = &flight{seed: seed, index: idx, updates: list(sm, "updates")}
 					order = append(order, seed.GetID())
 				}
+				freezeAt := num(in, "freezeAtPass", -1)
+				var freezeOnce sync.Once
 				var wg sync.WaitGroup
 				var smu sync.Mutex
 				passes := map[string]int{}
@@ -115,6 +117,9 @@ func init() {
 				}
 				// the three stages: whatever comes out of the reactor goes to the finisher, after the next update of its tree
 				done := make(chan struct{})
+				if freezeAt >= 0 {
+					wg.Wait() // every seed is inside before the stop request can arrive
+				}
 				go func() {
 					for {
 						select {
@@ -136,6 +141,9 @@ func init() {
 							}
 							if f != nil && k > len(f.updates) {
 								continue // the scenario has no further pass for this seed: hold it
+							}
+							if freezeAt >= 0 && k == freezeAt {
+								freezeOnce.Do(reactor.Freeze) // a stop request arrives while the stages still hold seeds
 							}
 							fIn <- it
 						case <-done:
